@@ -182,9 +182,9 @@ CLAIMED = {
              "(C08_arc_between_candidates: between two parameters with no critical parameter strictly inside, the coordinate stays between "
              "its two end values - intermediate value theorem for the derivative's sign, mean value theorem for monotonicity; C08_arc_box_from_candidates: any finite list holding both ends of the sweep and every critical "
              "parameter strictly inside it gives, as min/max over the listed points, a box containing the point at every parameter of the "
-             "sweep - the hypotheses are what Arc.bbox sets out to collect). Not proved: "
-             "that the nine k-shifted candidates the code converts through angle_inv (degrees, theta, delta) enumerate every critical "
-             "parameter inside a partial sweep, and cubics with a leading coefficient strictly inside the threshold: the transcribed "
+             "sweep - the hypotheses are what Arc.bbox sets out to collect; C08_arc_critical_spacing: the critical parameters of a "
+             "non-constant coordinate are exactly one of them plus the integer multiples of a half turn, the (tau/2)*k shifts of the code). Not proved: "
+             "that nine shifts k = -4..4, converted through angle_inv (degrees, theta, delta), suffice for every start parameter and sweep, and cubics with a leading coefficient strictly inside the threshold: the transcribed "
              "algorithms (Model/BBox.lean) are compared with the code, and a dense-sampling + ternary-refinement oracle checks "
              "containment and tightness of all four sides on the implementation, for segments, shapes/paths/subpaths in all four "
              "(transformed, with_stroke) combinations with painted/none/unset strokes, and groups.",
